@@ -368,8 +368,8 @@ package updown
 //@   loop 2:
 //@     invariant nQ == len(queries) && len(QChanArray) == nQ
 //@     invariant forall(k, 0, nQ, len(sent(QChanArray[k])) == 0)
-//@   before call:findUpDownCatchmentPushDistance#1: assert [worker.wiring.push] pushDistance > 0 && arg(0) == queries[i] && arg(1) == ignore && arg(2) == sizeArray && arg(3) == pushDistance && arg(4) == threshpair && arg(5) == QChanArray[i] && arg(6) == cOut
-//@   before call:findUpDownCatchment#1: assert [worker.wiring] pushDistance <= 0 && arg(0) == queries[i] && arg(1) == ignore && arg(2) == sizeArray && arg(3) == nofill && arg(4) == distArray && arg(5) == threshpair && arg(6) == QChanArray[i] && arg(7) == cOut
+//@   before call:findUpDownCatchmentPushDistance#1: assert [worker.wiring.push] pushDistance > 0 && arg(0) == queries[i] && sameslice(arg(1), ignore) && arg(2) == sizeArray && arg(3) == pushDistance && (arg(4) == threshpair || (isnan(arg(4)) && isnan(threshpair))) && arg(5) == QChanArray[i] && arg(6) == cOut
+//@   before call:findUpDownCatchment#1: assert [worker.wiring] pushDistance <= 0 && arg(0) == queries[i] && sameslice(arg(1), ignore) && arg(2) == sizeArray && arg(3) == nofill && arg(4) == distArray && (arg(5) == threshpair || (isnan(arg(5)) && isnan(threshpair))) && arg(6) == QChanArray[i] && arg(7) == cOut
 //@   loop 3:
 //@     invariant nQ == len(queries) && len(QChanArray) == nQ && len(sent(cSplitDone)) == 0 && len(sent(cErr)) == 0
 //@     invariant [fanout.all] forall(k, 0, nQ, len(sent(QChanArray[k])) == count(t, 0, range_i, recv(cIn)[t].ambCount <= threshtarg))
